@@ -18,7 +18,9 @@ EXPLANATION = (
     "violation). Hand-written densities / entropies are accepted only if they normalise to the documented closed form (log-space "
     "for the softmax head). Greedy policies are argmax of the row / network output; the tabular epsilon-greedy branch orientation "
     "(roll < epsilon -> random) and the DQN-family selection branch (random iff [step < learning_starts or] roll < epsilon_t, else "
-    "greedy_policy(<online net>, <current obs>)) with the 1.0 -> 0.1 linear schedule are structural."
+    "greedy_policy(<online net>, <current obs>)) with the 1.0 -> 0.1 linear schedule are structural.  The schedule and the rolls are the arrays whose "
+    "entries the selection tests compare (bound to locals, inline, inside a helper, decided once for all steps with logical_or / arange / `|`): the "
+    "schedule is linear_schedule(total_timesteps) read at the entry of the current step (the rest of it from k on read at step - k is the same entry)."
 )
 TRUSTED = ["tfp MultivariateNormalDiag / Normal / Categorical closed forms for the parameters they are given", "jax.random.uniform draws from [0, 1)", "jnp.argmax returns a maximiser"]
 RULES = {
@@ -27,7 +29,7 @@ RULES = {
     "R3-distribution-call": "log_probability == MultivariateNormalDiag(mean, std).log_prob(action) (or the documented closed form); entropy == Normal(mean, std).entropy(); "
                             "softmax head: Categorical(logits=...) for sample / log_prob / entropy, probabilities == softmax(logits)",
     "R4-greedy": "greedy == argmax of the Q row / network output on the observation; epsilon-greedy: roll < epsilon -> uniformly random action over the row, else greedy; "
-                 "DQN family: random iff [step < learning_starts or] roll[step] < epsilon[step], else greedy on the online network and the current observation; epsilon = linear_schedule(total_timesteps)",
+                 "DQN family: random iff [step < learning_starts or] roll[step] < epsilon[step], else greedy on the online network and the current observation; epsilon = linear_schedule(total_timesteps), read at the entry of the current step",
 }
 
 PH = "rl_blox.blox.function_approximator.policy_head."
@@ -573,15 +575,83 @@ def epsilon_greedy_tabular(ck, repo, nfp):
     ck.ob("R4-greedy", q, "greedy-arm", okg, f"exploit -> {[r_[:70] for r_, _ in kinds.get('greedy', [])][:1]}", "" if okg else "the non-exploring arm must be the greedy action of the same table and observation", loc(mi, fn))
 
 
-def _pointwise(cfg, e, at, depth=0):
-    """A test that indexes a comparison of two equally long arrays is the comparison of their entries: (a < b)[i] == a[i] < b[i] (`explore = rolls < eps`
-    decided once for all steps, `if explore[step]`).  Locals are followed while their operands still hold the values they had at the definition."""
+_LOGICAL = {"logical_or": ast.Or, "logical_and": ast.And, "bitwise_or": ast.Or, "bitwise_and": ast.And}
+
+
+def _pointwise(cfg, e, at, depth=0, ctx=None):
+    """A test that indexes an array of decisions made once for all steps is the decision about its entries: (a < b)[i] == a[i] < b[i],
+    logical_or(p, q)[i] == p[i] or q[i] (also `p | q`, `p & q`, `~p` of such arrays), arange(a, b)[i] == a + i, and a scalar compared with an array is compared
+    with every entry (`explore = (arange(T) < learning_starts) | (rolls < eps)`, `if explore[step]`).  Locals are followed while their operands still hold the
+    values they had at the definition.  ``ctx`` = (repo, module, names of scalar quantities)."""
+    repo, mi, scalars = ctx if ctx is not None else (None, None, frozenset())
+
+    def defined(v):
+        """The expression a local array was bound to, while the names in it still hold the values they had there."""
+        ds = cfg.defs_of(at, v.id)
+        rhs = None
+        if len(ds) == 1 and ds[0].kind == "assign" and isinstance(ds[0].value, ast.AST):
+            rhs = strip_wrappers(ds[0].value)
+        elif len(ds) == 1 and ds[0].kind == "unpack" and isinstance(ds[0].value, ast.Tuple) and len(ds[0].path) == 1 and isinstance(ds[0].path[0], int) and ds[0].path[0] < len(ds[0].value.elts):
+            rhs = strip_wrappers(ds[0].value.elts[ds[0].path[0]])
+        if rhs is None or isinstance(rhs, ast.Name):
+            return None
+        names = {x.id for x in ast.walk(rhs) if isinstance(x, ast.Name)}
+        rd, out = cfg.reaching(), cfg.reaching_out()[ds[0].node]
+        return rhs if v.id not in names and all(rd[at].get(nm) == out.get(nm) for nm in names) else None
+
+    def fn_of(x):
+        r = repo.resolve_expr(mi, x.func) if repo is not None and isinstance(x.func, (ast.Name, ast.Attribute)) else None
+        return r.rsplit(".", 1)[-1] if r and r.rsplit(".", 1)[0] in ("numpy", "jax.numpy") else None
+
+    def boolean(x):
+        return isinstance(x, (ast.Compare, ast.BoolOp)) or (isinstance(x, ast.UnaryOp) and isinstance(x.op, ast.Not))
+
+    def entry(x, idx, d=0):
+        """The entry idx of an array expression built element-wise; the plain subscript for anything else."""
+        x = strip_wrappers(x)
+        plain = ast.copy_location(ast.Subscript(value=x, slice=idx, ctx=ast.Load()), e)
+        if d > 6:
+            return plain
+        if (isinstance(x, ast.Constant) and type(x.value) in (int, float, bool)) or (isinstance(x, ast.Name) and x.id in scalars):
+            return x
+        if isinstance(x, ast.Name):
+            rhs = defined(x)
+            if isinstance(rhs, (ast.Compare, ast.Call, ast.BinOp, ast.UnaryOp, ast.Subscript)):
+                got = entry(rhs, idx, d + 1)
+                if not (isinstance(got, ast.Subscript) and got.value is rhs):
+                    return got
+            return plain
+        if isinstance(x, ast.Subscript) and isinstance(x.slice, ast.Slice) and x.slice.step is None and x.slice.upper is None and x.slice.lower is not None \
+                and not (isinstance(x.slice.lower, ast.UnaryOp) or (isinstance(x.slice.lower, ast.Constant) and not (type(x.slice.lower.value) is int and x.slice.lower.value >= 0))):
+            # x[j:][i] == x[j + i]: the rest of an array from position j on (j and i count from the front: step numbers)
+            return entry(x.value, ast.copy_location(ast.BinOp(left=x.slice.lower, op=ast.Add(), right=idx), e), d + 1)
+        if isinstance(x, ast.Compare) and len(x.ops) == 1:
+            return ast.copy_location(ast.Compare(left=entry(x.left, idx, d + 1), ops=x.ops, comparators=[entry(x.comparators[0], idx, d + 1)]), e)
+        if isinstance(x, ast.Call) and not x.keywords and not any(isinstance(a_, ast.Starred) for a_ in x.args):
+            f = fn_of(x)
+            if f in _LOGICAL and len(x.args) == 2:
+                return ast.copy_location(ast.BoolOp(op=_LOGICAL[f](), values=[entry(a_, idx, d + 1) for a_ in x.args]), e)
+            if f == "logical_not" and len(x.args) == 1:
+                return ast.copy_location(ast.UnaryOp(op=ast.Not(), operand=entry(x.args[0], idx, d + 1)), e)
+            if f == "arange" and len(x.args) in (1, 2):
+                return idx if len(x.args) == 1 else ast.copy_location(ast.BinOp(left=x.args[0], op=ast.Add(), right=idx), e)
+            return plain
+        if isinstance(x, ast.BinOp) and isinstance(x.op, (ast.BitOr, ast.BitAnd)):
+            parts = [entry(x.left, idx, d + 1), entry(x.right, idx, d + 1)]
+            if all(boolean(p_) for p_ in parts):      # `|` / `&` of arrays of decisions
+                return ast.copy_location(ast.BoolOp(op=ast.Or() if isinstance(x.op, ast.BitOr) else ast.And(), values=parts), e)
+            return plain
+        if isinstance(x, ast.UnaryOp) and isinstance(x.op, ast.Invert):
+            inner = entry(x.operand, idx, d + 1)
+            return ast.copy_location(ast.UnaryOp(op=ast.Not(), operand=inner), e) if boolean(inner) else plain
+        return plain
+
     if depth > 6:
         return e
     if isinstance(e, ast.BoolOp):
-        return ast.copy_location(ast.BoolOp(op=e.op, values=[_pointwise(cfg, v, at, depth + 1) for v in e.values]), e)
+        return ast.copy_location(ast.BoolOp(op=e.op, values=[_pointwise(cfg, v, at, depth + 1, ctx) for v in e.values]), e)
     if isinstance(e, ast.UnaryOp) and isinstance(e.op, ast.Not):
-        return ast.copy_location(ast.UnaryOp(op=e.op, operand=_pointwise(cfg, e.operand, at, depth + 1)), e)
+        return ast.copy_location(ast.UnaryOp(op=e.op, operand=_pointwise(cfg, e.operand, at, depth + 1, ctx)), e)
     if isinstance(e, ast.Name):
         rhs = cfg._expand_name(e, at)
         ds = cfg.defs_of(at, e.id) if rhs is None else []
@@ -591,39 +661,114 @@ def _pointwise(cfg, e, at, depth=0):
             if e.id not in names and all(cfg.reaching()[at].get(nm) == cfg.reaching_out()[ds[0].node].get(nm) for nm in names):
                 rhs = ds[0].value
         if rhs is not None:
-            new = _pointwise(cfg, rhs, at, depth + 1)
+            new = _pointwise(cfg, rhs, at, depth + 1, ctx)
             if ast.dump(new) != ast.dump(rhs):
                 return new
         return e
     if isinstance(e, ast.Subscript) and not isinstance(e.slice, (ast.Slice, ast.Tuple)):
-        v = strip_wrappers(e.value)
-        if isinstance(v, ast.Name):
-            ds = cfg.defs_of(at, v.id)
-            rhs = None
-            if len(ds) == 1 and ds[0].kind == "assign" and isinstance(ds[0].value, ast.AST):
-                rhs = strip_wrappers(ds[0].value)
-            elif len(ds) == 1 and ds[0].kind == "unpack" and isinstance(ds[0].value, ast.Tuple) and len(ds[0].path) == 1 and isinstance(ds[0].path[0], int) and ds[0].path[0] < len(ds[0].value.elts):
-                rhs = strip_wrappers(ds[0].value.elts[ds[0].path[0]])
-            if isinstance(rhs, ast.Compare):
-                names = {x.id for x in ast.walk(rhs) if isinstance(x, ast.Name)}
-                rd, out = cfg.reaching(), cfg.reaching_out()[ds[0].node]
-                if v.id not in names and all(rd[at].get(nm) == out.get(nm) for nm in names):
-                    v = rhs
-        if isinstance(v, ast.Compare) and len(v.ops) == 1:
-            def at_index(x):
-                return ast.Subscript(value=x, slice=e.slice, ctx=ast.Load())
-            return ast.fix_missing_locations(ast.copy_location(ast.Compare(left=at_index(v.left), ops=v.ops, comparators=[at_index(v.comparators[0])]), e))
+        got = entry(e.value, e.slice)
+        if boolean(got):
+            return ast.fix_missing_locations(got)
+    if isinstance(e, ast.Call):
+        inner = strip_wrappers(e)      # bool(mask[step]) tests mask[step]
+        if inner is not e:
+            return _pointwise(cfg, inner, at, depth + 1, ctx)
+    if isinstance(e, ast.Compare) and len(e.ops) == 1:
+        # an entry of the rest of an array is an entry of the array: `eps = schedule[k:]`, `eps[t - k]` reads schedule[k + (t - k)]
+        def whole(x):
+            x0 = strip_wrappers(x)
+            if isinstance(x0, ast.Subscript) and not isinstance(x0.slice, (ast.Slice, ast.Tuple)):
+                got = entry(x0.value, x0.slice)
+                if isinstance(got, ast.Subscript) and ast.dump(got) != ast.dump(x0):
+                    return ast.fix_missing_locations(got)
+            return x
+        sides = [whole(e.left), whole(e.comparators[0])]
+        if sides[0] is not e.left or sides[1] is not e.comparators[0]:
+            return ast.fix_missing_locations(ast.copy_location(ast.Compare(left=sides[0], ops=e.ops, comparators=[sides[1]]), e))
     return e
+
+
+def _step_positions(fn):
+    """Copy of a routine that keeps the whole step result in one local (`res = env.step(a)`, read as `res[0]`, `res[:4]`, `o, r, te, tr, info = res`)
+    with that local written as the five protocol positions it consists of: `res__s0, ..., res__s4 = env.step(a)`, `res[k]` -> `res__sk`, `res[:4]` -> the
+    tuple of the first four.  The same program (the step result is the 5-tuple of the environment protocol); None when the local is used in any other way."""
+    from ..expand import clone
+    pn = set(param_names(fn))
+    own = _own(fn, ast.AST)
+    steps = [n for n in own if isinstance(n, ast.Assign) and len(n.targets) == 1 and isinstance(n.targets[0], ast.Name) and isinstance(n.value, ast.Call) and isinstance(n.value.func, ast.Attribute)
+             and n.value.func.attr == "step" and isinstance(n.value.func.value, ast.Name) and n.value.func.value.id in pn]
+    if len(steps) != 1:
+        return None
+    v = steps[0].targets[0].id
+    if v in pn or sum(1 for n in ast.walk(fn) if isinstance(n, ast.Name) and n.id == v and not isinstance(n.ctx, ast.Load)) != 1 \
+            or any(isinstance(n, (ast.Global, ast.Nonlocal)) and v in n.names for n in ast.walk(fn)) or sum(1 for n in ast.walk(fn) if isinstance(n, ast.Name) and n.id == v) != sum(1 for n in own if isinstance(n, ast.Name) and n.id == v):
+        return None      # rebound, or read inside a nested function
+
+    def pos(k, ctx, at):
+        return ast.copy_location(ast.Name(id=f"{v}__s{k}", ctx=ctx), at)
+
+    def const_int(e):
+        if isinstance(e, ast.UnaryOp) and isinstance(e.op, ast.USub) and isinstance(e.operand, ast.Constant) and type(e.operand.value) is int:
+            return -e.operand.value
+        return e.value if isinstance(e, ast.Constant) and type(e.value) is int else None
+    new = clone(fn)
+    bad = []
+
+    class T(ast.NodeTransformer):
+        def visit_FunctionDef(self, n):
+            return self.generic_visit(n) if n is new else n
+        visit_AsyncFunctionDef = visit_Lambda = visit_ClassDef = visit_FunctionDef
+
+        def visit_Assign(self, n):
+            if len(n.targets) == 1 and isinstance(n.targets[0], ast.Name) and n.targets[0].id == v:
+                n.targets = [ast.copy_location(ast.Tuple(elts=[pos(k, ast.Store(), n) for k in range(5)], ctx=ast.Store()), n)]
+                n.value = self.visit(n.value)
+                return n
+            if isinstance(n.value, ast.Name) and n.value.id == v and len(n.targets) == 1 and isinstance(n.targets[0], ast.Tuple) and len(n.targets[0].elts) == 5 and not any(isinstance(e, ast.Starred) for e in n.targets[0].elts):
+                n.targets = [self.visit(n.targets[0])]
+                n.value = ast.copy_location(ast.Tuple(elts=[pos(k, ast.Load(), n) for k in range(5)], ctx=ast.Load()), n.value)
+                return n
+            return self.generic_visit(n)
+
+        def visit_Subscript(self, n):
+            if isinstance(n.value, ast.Name) and n.value.id == v and isinstance(n.ctx, ast.Load):
+                s = n.slice
+                k = const_int(s)
+                if k is not None and -5 <= k < 5:
+                    return pos(k % 5, ast.Load(), n)
+                if isinstance(s, ast.Slice) and s.step is None and all(b is None or const_int(b) is not None for b in (s.lower, s.upper)):
+                    ks = list(range(5))[slice(const_int(s.lower) if s.lower is not None else None, const_int(s.upper) if s.upper is not None else None)]
+                    return ast.copy_location(ast.Tuple(elts=[pos(k, ast.Load(), n) for k in ks], ctx=ast.Load()), n)
+            return self.generic_visit(n)
+
+        def visit_Name(self, n):
+            if n.id == v:
+                bad.append(n)
+            return n
+    T().visit(new)
+    if bad:
+        return None
+    ast.fix_missing_locations(new)
+    for parent in ast.walk(new):
+        for child in ast.iter_child_nodes(parent):
+            child._parent = parent
+    if hasattr(fn, "_module"):
+        new._module = fn._module
+    return new
 
 
 def dqn_loop(ck, repo, nfp, lq, has_ls):
     """Per path through the action selection, the executed action is the space sample iff (step < learning_starts or roll[step] < epsilon[step]) and the
     greedy action of the online network on the current observation otherwise."""
     from ..sympath import enumerate_paths, PathEval
-    from ..sem import selector_table
+    from ..sem import selector_table, structured_value
     from ..specialise import load_signatures
-    L = find_env_loop(repo, lq)
+    from ..cfg import CFG
+    from ..loops import Origins
+    alt = _step_positions(repo.func(lq))      # a step result kept whole in one local is read as its five protocol positions
+    L = find_env_loop(repo, lq, {lq: CFG(alt)} if alt is not None else None)
     cfg, mi, fn = L.cfg, L.mi, L.fn
+    org = Origins(L)
     pn = param_names(fn)
     recorded = load_signatures().get(lq) or []
 
@@ -636,11 +781,20 @@ def dqn_loop(ck, repo, nfp, lq, has_ls):
         raise AnalysisError(f"{lq}: parameter `{name}` of the recorded signature not found (anchor vanished)")
     total, qnet = role("total_timesteps"), role("q_net")
     hdr = cfg.nodes[L.outer_header].ast
+    counts_steps = True      # the loop variable is the number of the training step (it runs up to total_timesteps)
     if isinstance(hdr, ast.For) and isinstance(hdr.target, ast.Name):
         cvar = hdr.target.id
+        it = hdr.iter
+        counts_steps = isinstance(it, ast.Call) and not any(isinstance(x, ast.Starred) for x in it.args) and len(it.args) in (1, 2) and isinstance(it.args[-1], ast.Name) and it.args[-1].id == total \
+            and isinstance(it.func, (ast.Name, ast.Attribute)) and dotted(it.func).rsplit(".", 1)[-1] in ("range", "trange")
     else:
+        # the tests that end the loop: its header and the guard clauses of its body whose one arm only leaves the loop (`while True: if step >= total: break`)
+        exits = [hdr.test] if isinstance(hdr, ast.While) else []
+        for st in hdr.body if isinstance(hdr, ast.While) else []:
+            if isinstance(st, ast.If) and any(len(arm) == 1 and isinstance(arm[0], ast.Break) for arm in (st.body, st.orelse)):
+                exits.append(st.test)
         cands = set()
-        for c in ast.walk(hdr.test) if isinstance(hdr, ast.While) else []:
+        for c in (c_ for t_ in exits for c_ in ast.walk(t_)):
             if isinstance(c, ast.Compare) and len(c.ops) == 1:
                 sides = [c.left, c.comparators[0]]
                 if any(isinstance(x, ast.Name) and x.id == total for x in sides):
@@ -660,8 +814,16 @@ def dqn_loop(ck, repo, nfp, lq, has_ls):
             for c in ast.walk(n.ast):
                 if isinstance(c, ast.Call) and isinstance(c.func, ast.Attribute) and c.func.attr == "add_sample":
                     cur |= {dotted(k.value) for k in c.keywords if k.arg == "observation" and dotted(k.value)}
-            if isinstance(n.ast, ast.Assign) and len(n.ast.targets) == 1 and isinstance(n.ast.targets[0], ast.Name) and isinstance(n.ast.value, ast.Name) and n.ast.value.id == L.pos.get(0):
-                cur.add(n.ast.targets[0].id)
+            if isinstance(n.ast, ast.Assign) and len(n.ast.targets) == 1 and isinstance(n.ast.targets[0], ast.Name) and isinstance(n.ast.value, ast.Name):
+                x = n.ast.targets[0].id
+                if n.ast.value.id == L.pos.get(0):
+                    cur.add(x)
+                elif org.of_expr(n.ast.value, n.id) == {("step", 0)}:
+                    # a copy of the step's observation (through locals / a tuple of the projected result) into the local that enters every iteration holding
+                    # what the environment last returned: its definitions at the loop header are observations of reset and step only
+                    at_hdr = org.of_name(x, L.outer_header)
+                    if at_hdr and all(o_[0] in ("step", "reset") and o_[1] == 0 for o_ in at_hdr) and any(o_[0] == "reset" for o_ in at_hdr):
+                        cur.add(x)
     ck.need(cur, f"{lq}: the local holding the current observation is not identified (unrecognised form)")
 
     def pre(p):
@@ -683,7 +845,9 @@ def dqn_loop(ck, repo, nfp, lq, has_ls):
         a0 = args[0].single_atom() or ""
         if not ok_net and (a0.isidentifier() and a0 not in pn):
             raise AnalysisError(f"{lq}: network `{a0}` handed to greedy_policy is a local this rule does not read back to a parameter (unrecognised idiom)")
-        if not ok_obs and args[1].single_atom() not in [v_ for v_ in L.pos.values() if v_]:
+        a1 = args[1].single_atom() or ""
+        stale = a1.isidentifier() and {o_[0] for o_ in org.of_name(a1, L.step_node)} == {"step"}      # every definition that reaches the step is a position of the previous step's result
+        if not ok_obs and not stale:
             # evidence of acting on another observation: a result position of env.step (next_obs, ...); anything else is not read
             raise AnalysisError(f"{lq}: observation `{args[1].canon()[:60]}` handed to greedy_policy is not read back to the current observation (unrecognised idiom)")
         return ok_net and ok_obs
@@ -745,6 +909,9 @@ def dqn_loop(ck, repo, nfp, lq, has_ls):
                 if {i_ for i_, c_ in names if c_ is ast.Store} & rel and not {i_ for i_, c_ in names if c_ is ast.Load} <= rel:
                     rel |= {i_ for i_, c_ in names if c_ is ast.Load}      # what is copied / converted into the action variable
                     grew = True
+    # scalar quantities of the element-wise readings: the step counter and the parameters the signature declares as numbers
+    a_ = fn.args
+    pw_ctx = (repo, mi, frozenset({cvar} | {x.arg for x in a_.posonlyargs + a_.args + a_.kwonlyargs if isinstance(x.annotation, ast.Name) and x.annotation.id in ("int", "float")}))
     items, seen_kinds = [], {}
     try:
         paths = enumerate_paths(cfg, L.outer_header, {L.step_node}, first_label=True, max_paths=3000)
@@ -756,44 +923,115 @@ def dqn_loop(ck, repo, nfp, lq, has_ls):
         for extra, v in split(pth, pe, aexpr, L.step_node):
             kind, a, ok_ = classify(v, pe)
             seen_kinds.setdefault(kind, set()).add((a, ok_))
-            items.append(([(_pointwise(cfg, t_, nid, 0), nid, lab) for t_, nid, lab in conds + extra], kind))
-    # the schedule and the rolls: the locals bound to linear_schedule(...) and to the random draw, whatever they are called
-    sched, draws = [], []
-    for n in cfg.nodes:
-        if n.kind == "stmt" and isinstance(n.ast, (ast.Assign, ast.AnnAssign)) and n.ast.value is not None and isinstance(strip_wrappers(n.ast.value), ast.Call):
-            tg = n.ast.targets[0] if isinstance(n.ast, ast.Assign) and len(n.ast.targets) == 1 else getattr(n.ast, "target", None)
-            if isinstance(tg, ast.Name):
-                try:
-                    vp = nfp.poly(n.ast.value, Scope(cfg, mi, envl, lq), n.id)
-                except Exception:
-                    continue
-                mv = nfp.meta.get(vp.single_atom() or "", {}) if vp.elems is None else {}
-                if _fn(mv) == "linear_schedule" and mv["fn"].startswith("rl_blox."):
-                    sched.append((tg.id, n, vp, mv))
-                elif _fn(mv) in RANDOM_DRAWS and mv["fn"] == _fn(mv):
-                    draws.append((tg.id, n, vp, mv))
-    # ... of those, the ones the selection tests read (directly or through locals): a second schedule (PER's beta) / another draw is not the exploration's
-    used, todo = set(), [(x.id, nid) for conds_, _ in items for t_, nid, _ in conds_ for x in ast.walk(t_) if isinstance(x, ast.Name)]
-    while todo:
-        nm_, at_ = todo.pop()
-        if (nm_, at_) in used or len(used) > 400:
-            continue
-        used.add((nm_, at_))
-        for d_ in cfg.defs_of(at_, nm_):
-            if d_.kind in ("assign", "unpack", "aug", "walrus") and isinstance(getattr(d_, "value", None), ast.AST):
-                todo += [(x.id, d_.node) for x in ast.walk(d_.value) if isinstance(x, ast.Name)]
-    used = {nm_ for nm_, _ in used}
-    sched, draws = [s_ for s_ in sched if s_[0] in used], [s_ for s_ in draws if s_[0] in used]
-    if len(sched) != 1 or len(draws) != 1:
-        raise AnalysisError(f"{lq}: {len(sched)} locals bound to linear_schedule(...) and {len(draws)} to a random draw: the exploration schedule / rolls are not identified (unrecognised form)")
-    (eps, eps_n, eps_p, eps_m), (rolls, rolls_n, rolls_p, rolls_m) = sched[0], draws[0]
-    pred = parse_expr(f"({cvar} < {role('learning_starts')}) or ({rolls}[{cvar}] < {eps}[{cvar}])" if has_ls else f"{rolls}[{cvar}] < {eps}[{cvar}]")
+            items.append(([(_pointwise(cfg, t_, nid, 0, pw_ctx), nid, lab) for t_, nid, lab in conds + extra], kind))
+    opaque = set(pn) | {cvar}
     first_test = next((nid for conds_, _ in items for _, nid, _ in conds_), None)
     ck.need(first_test is not None, f"{lq}: the executed action does not depend on any exploration test (unrecognised idiom)")
-    verdict, info = selector_table(nfp, mi, cfg, items, pred, "random", "greedy", opaque=set(pn) | {cvar}, pred_at=first_test)
-    if verdict is None:
-        raise AnalysisError(f"{lq}: action selection not comparable with the documented exploration test: {info}")
-    ck.ob("R4-greedy", lq, "exploration-test", verdict, f"random iff {ast.unparse(pred)} (truth table over {len(items)} path(s))", "" if verdict else f"documented: random action iff {ast.unparse(pred)}; differs in the world {info}", loc(mi, fn))
+    ls_test = f"({cvar} < {role('learning_starts')}) or " if has_ls else ""
+    # the schedule and the rolls, read off the comparisons the selection tests make: the entry of a random draw compared with the entry of a
+    # linear_schedule(...), wherever the two arrays are built (locals, inline, inside an expanded helper)
+    sc_t = Scope(cfg, mi, envl, lq)
+    sc_t.opaque_names = set(opaque)
+
+    def comparisons(e, at, d=0):
+        """The comparisons a test consists of, as the truth table sees them (flags bound to a test are followed)."""
+        if d > 8:
+            return
+        if isinstance(e, ast.BoolOp):
+            for v_ in e.values:
+                yield from comparisons(v_, at, d + 1)
+        elif isinstance(e, ast.UnaryOp) and isinstance(e.op, ast.Not):
+            yield from comparisons(e.operand, at, d + 1)
+        elif isinstance(e, ast.IfExp):
+            for v_ in (e.test, e.body, e.orelse):
+                yield from comparisons(v_, at, d + 1)
+        elif isinstance(e, ast.Name) and e.id not in opaque:
+            rhs = cfg._expand_name(e, at)
+            if rhs is None:
+                rhs = structured_value(cfg, e.id, at)
+            if rhs is not None:
+                yield from comparisons(rhs, at, d + 1)
+        elif isinstance(e, ast.Compare) and len(e.ops) == 1:
+            yield e, at
+
+    def entry_of(side, at):
+        """(kind, array, its call, index) when the operand is one entry of a linear_schedule(...) ('s') / of a random draw ('d')."""
+        try:
+            p_ = nfp.poly(side, sc_t, at)
+        except Exception:
+            return None
+        a_ = p_.single_atom() if p_.elems is None else None
+        m_ = nfp.meta.get(a_ or "", {})
+        if m_.get("fn") != "subscript" or len(m_.get("args", [])) != 1:
+            return None
+        base = m_["args"][0]
+        mb = nfp.meta.get(base.single_atom() or "", {}) if base.elems is None else {}
+        kind = "s" if _fn(mb) == "linear_schedule" and mb["fn"].startswith("rl_blox.") else "d" if _fn(mb) in RANDOM_DRAWS and mb["fn"] == _fn(mb) else None
+        if kind is None or not a_.startswith(base.canon() + "[") or not a_.endswith("]"):
+            return None
+        return kind, base, mb, a_[len(base.canon()) + 1:-1]
+    found, both = {"s": [], "d": []}, []
+    for conds_, _ in items:
+        for t_, nid, _ in conds_:
+            for cmp_, at_ in comparisons(t_, nid):
+                sides = [(x_, entry_of(x_, at_)) for x_ in (cmp_.left, cmp_.comparators[0])]
+                for x_, r_ in sides:
+                    if r_ is not None:
+                        found[r_[0]].append((x_, at_) + r_[1:])
+                if {r_[0] for _, r_ in sides if r_ is not None} == {"s", "d"}:
+                    both.append((dict((r_[0], x_) for x_, r_ in sides), at_))
+    eps_idx = rolls_idx = None
+    if found["s"] and found["d"]:
+        if len({f_[2].canon() for f_ in found["s"]}) != 1 or len({f_[2].canon() for f_ in found["d"]}) != 1 or len({f_[4] for f_ in found["s"]}) != 1 or len({f_[4] for f_ in found["d"]}) != 1 or not both:
+            raise AnalysisError(f"{lq}: the selection tests read {len({f_[2].canon() for f_ in found['s']})} schedule(s) and {len({f_[2].canon() for f_ in found['d']})} random draw(s) at several entries: the exploration schedule / rolls are not identified (unrecognised form)")
+        (_, eps_at, eps_p, eps_m, eps_idx), (_, rolls_at, rolls_p, rolls_m, rolls_idx) = found["s"][0], found["d"][0]
+        eps, rolls, eps_where, rolls_where = "epsilon", "rolls", loc(mi, cfg.nodes[eps_at].ast), loc(mi, cfg.nodes[rolls_at].ast)
+        sides, pred_at = both[0]
+        pred = ast.Compare(left=sides["d"], ops=[ast.Lt()], comparators=[sides["s"]])
+        if has_ls:
+            pred = ast.BoolOp(op=ast.Or(), values=[parse_expr(ls_test[:-4]), pred])
+        pred = ast.fix_missing_locations(ast.copy_location(pred, cfg.nodes[pred_at].ast))
+    else:
+        # ... or the locals bound to linear_schedule(...) and to the random draw, whatever they are called
+        sched, draws = [], []
+        for n in cfg.nodes:
+            if n.kind == "stmt" and isinstance(n.ast, (ast.Assign, ast.AnnAssign)) and n.ast.value is not None and isinstance(strip_wrappers(n.ast.value), ast.Call):
+                tg = n.ast.targets[0] if isinstance(n.ast, ast.Assign) and len(n.ast.targets) == 1 else getattr(n.ast, "target", None)
+                if isinstance(tg, ast.Name):
+                    try:
+                        vp = nfp.poly(n.ast.value, sc_t, n.id)
+                    except Exception:
+                        continue
+                    mv = nfp.meta.get(vp.single_atom() or "", {}) if vp.elems is None else {}
+                    if _fn(mv) == "linear_schedule" and mv["fn"].startswith("rl_blox."):
+                        sched.append((tg.id, n, vp, mv))
+                    elif _fn(mv) in RANDOM_DRAWS and mv["fn"] == _fn(mv):
+                        draws.append((tg.id, n, vp, mv))
+        # ... of those, the ones the selection tests read (directly or through locals): a second schedule (PER's beta) / another draw is not the exploration's
+        used, todo = set(), [(x.id, nid) for conds_, _ in items for t_, nid, _ in conds_ for x in ast.walk(t_) if isinstance(x, ast.Name)]
+        while todo:
+            nm_, at_ = todo.pop()
+            if (nm_, at_) in used or len(used) > 400:
+                continue
+            used.add((nm_, at_))
+            for d_ in cfg.defs_of(at_, nm_):
+                if d_.kind in ("assign", "unpack", "aug", "walrus") and isinstance(getattr(d_, "value", None), ast.AST):
+                    todo += [(x.id, d_.node) for x in ast.walk(d_.value) if isinstance(x, ast.Name)]
+        used = {nm_ for nm_, _ in used}
+        sched, draws = [s_ for s_ in sched if s_[0] in used], [s_ for s_ in draws if s_[0] in used]
+        if len(sched) != 1 or len(draws) != 1:
+            raise AnalysisError(f"{lq}: {len(sched)} locals bound to linear_schedule(...) and {len(draws)} to a random draw: the exploration schedule / rolls are not identified (unrecognised form)")
+        (eps, eps_n, eps_p, eps_m), (rolls, rolls_n, rolls_p, rolls_m) = sched[0], draws[0]
+        eps_where, rolls_where = loc(mi, eps_n.ast), loc(mi, rolls_n.ast)
+        pred, pred_at = parse_expr(f"{ls_test}({rolls}[{cvar}] < {eps}[{cvar}])"), first_test
+
+    def test_ob():
+        verdict, info = selector_table(nfp, mi, cfg, items, pred, "random", "greedy", opaque=opaque, pred_at=pred_at)
+        if verdict is None:
+            raise AnalysisError(f"{lq}: action selection not comparable with the documented exploration test: {info}")
+        shown = f"{ls_test}rolls[{rolls_idx}] < epsilon[{eps_idx}]" if eps_idx is not None else ast.unparse(pred)
+        ck.ob("R4-greedy", lq, "exploration-test", verdict, f"random iff {shown} (truth table over {len(items)} path(s))", "" if verdict else f"documented: random action iff {shown}; differs in the world {info}", loc(mi, fn))
+    ck.guard(test_ob)      # what is tested is judged here, which entries of which schedule / draw below
     okr = "random" in seen_kinds and all(o for _, o in seen_kinds["random"])
     ck.ob("R4-greedy", lq, "random-arm", okr, f"explore -> {sorted(a_ for a_, _ in seen_kinds.get('random', []))[:1]}", "" if okr else "exploring arm must sample the seeded action space of the environment", loc(mi, fn))
     okg = "greedy" in seen_kinds and all(o for _, o in seen_kinds["greedy"])
@@ -803,7 +1041,24 @@ def dqn_loop(ck, repo, nfp, lq, has_ls):
     if _unread(eps_p) or eps_m.get("kws", {}).get("**") is not None:
         raise AnalysisError(f"{lq}: arguments of the schedule `{eps_p.canon()[:80]}` are not read (unrecognised form)")
     ok = eps_m["args"] == [T] and not eps_m["kws"]
-    ck.ob("R4-greedy", lq, "epsilon-schedule", ok, f"{eps} = {eps_p.canon()[:100]}", "" if ok else "epsilon must be the documented linear schedule (1.0 -> 0.1 over the first 10%) over total_timesteps", loc(mi, eps_n.ast))
+    ck.ob("R4-greedy", lq, "epsilon-schedule", ok, f"{eps} = {eps_p.canon()[:100]}", "" if ok else "epsilon must be the documented linear schedule (1.0 -> 0.1 over the first 10%) over total_timesteps", eps_where)
+
+    def index(txt, what):
+        """The index of an entry as a normal form over the parameters and the step counter."""
+        try:
+            p_ = nfp.poly(parse_expr(txt), Scope(None, mi, envl, lq), None)
+        except Exception:
+            p_ = None
+        if p_ is None or _unread(p_):
+            raise AnalysisError(f"{lq}: the entry `[{txt[:60]}]` of {what} is not read (unrecognised form)")
+        return p_
+    if ok and eps_idx is not None:
+        # the probability of exploring in step t is the schedule's entry t: another entry of the documented schedule is another probability
+        ip = index(eps_idx, "the schedule")
+        if ip != _role(cvar) and not counts_steps:
+            raise AnalysisError(f"{lq}: the schedule is read at `[{eps_idx[:60]}]` in a loop whose variable `{cvar}` is not read as the number of the training step (unrecognised form)")
+        oki = ip == _role(cvar) or _differs(lq, "the entry of the schedule", ip, _role(cvar), pn)
+        ck.ob("R4-greedy", lq, "epsilon-index", oki, f"epsilon[{eps_idx}] in step {cvar}", "" if oki else f"the exploration probability of step `{cvar}` must be the schedule's entry `{cvar}` (a run continued from global_step > 0 is further down the schedule, not at its start)", eps_where)
     # rolls: U[0,1), one per step
     args, kws = list(rolls_m["args"]), dict(rolls_m["kws"])
     if _unread(rolls_p) or "**" in kws:
@@ -821,8 +1076,13 @@ def dqn_loop(ck, repo, nfp, lq, has_ls):
             if nm_ in b and not b[nm_].is_const():
                 raise AnalysisError(f"{lq}: bound {nm_}=`{b[nm_].canon()[:40]}` of the exploration rolls is not a constant (unrecognised form)")
             ok = ok and (nm_ not in b or b[nm_].const_value() == dv)
-        ok = ok and (shp == T or _differs(lq, "the number of exploration rolls", shp, T))
-    ck.ob("R4-greedy", lq, "rolls-uniform", ok, f"{rolls} = {rolls_p.canon()[:100]}", "" if ok else "rolls must be U[0,1) draws, one per step", loc(mi, rolls_n.ast))
+        off = Poly({})
+        if rolls_idx is not None and ok:
+            off = _role(cvar) - index(rolls_idx, "the rolls")      # rolls[t - k] in step t: one roll per step of a run that starts at k when there are T - k (or T) of them
+            if off != Poly({}) and (_unread(off) or cvar in re.findall(r"[A-Za-z_]\w*", off.canon()) or (shp != T and shp != T - off)):
+                raise AnalysisError(f"{lq}: the rolls are read at `[{rolls_idx[:60]}]` in step `{cvar}` of `{shp.canon()[:60]}` draws: one roll per step is not read (unrecognised form)")
+        ok = ok and (shp == T or shp == T - off or _differs(lq, "the number of exploration rolls", shp, T))
+    ck.ob("R4-greedy", lq, "rolls-uniform", ok, f"{rolls} = {rolls_p.canon()[:100]}", "" if ok else "rolls must be U[0,1) draws, one per step", rolls_where)
 
 
 def schedule_defaults(ck, repo, nf):
@@ -1015,4 +1275,47 @@ BENIGN += [
     {"id": "c13-b-dqn-logs-epsilon", "file": _DQN, "find": _IF_DQN, "replace": _IF_DQN + "        if logger is not None and step % 100 == 0:\n            logger.record_stat(\"epsilon\", epsilon[step], step=step + 1, episode=episode)\n"},
     {"id": "c13-b-dqn-decided-once-for-all-steps", "file": _DQN, "all": True, "edits": [(_ROLLS, _ROLLS + "    explore = np.asarray(epsilon_rolls < epsilon)\n"), ("        if epsilon_rolls[step] < epsilon[step]:", "        explore_now = explore[step]\n        if explore_now:")]},
     {"id": "c13-b-schedule-defaults-module-constants", "file": "rl_blox/blox/schedules.py", "find": "def linear_schedule(\n    total_timesteps: int,\n    start: float = 1.0,\n    end: float = 0.1,\n    fraction: float = 0.1,", "replace": "EPS_START = 1.0\nEPS_END = 0.1\n\n\ndef linear_schedule(\n    total_timesteps: int,\n    start: float = EPS_START,\n    end: float = EPS_END,\n    fraction: float = 0.1,"},
+]
+
+# forms read since the third seed batch: the loop left by a guard clause, the step result kept whole in a local, decisions made once for all steps with
+# logical_or / arange (in place or inside a helper), schedule and rolls that are not bound to locals, entries of the schedule / the rolls other than [step]
+_NDQN = "rl_blox/algorithm/nature_dqn.py"
+_WHILE = "    while step < total_timesteps:\n"
+_WHILE_GUARD = "    while True:\n        if not step < total_timesteps:\n            break\n"
+_IF_NDQN = "        if step < learning_starts or epsilon_rolls[step] < epsilon[step]:\n"
+_STEP_DQN = "        next_obs, reward, terminated, truncated, info = env.step(int(action))\n"
+_STEP_WHOLE = "        outcome = env.step(int(action))\n        next_obs, reward = outcome[0], outcome[1]\n        terminated, truncated, info = outcome[2:]\n"
+_GREEDY_DQN = "            action = greedy_policy(q_net, obs)\n"
+_EPS = "    epsilon = linear_schedule(total_timesteps)\n"
+_MASK = "    warm_up = np.arange(total_timesteps) < learning_starts\n    explore = warm_up | np.asarray(epsilon_rolls < epsilon)\n"
+_MASK_HELPER = "\n\ndef _exploring_steps(key, n_steps, first_step, warm_up):\n    eps = linear_schedule(N_STEPS)\n    rolls = jax.random.uniform(key, (n_steps - first_step,))\n    steps = np.arange(first_step, n_steps)\n    return np.logical_or(steps < warm_up, np.asarray(rolls < eps[first_step:]))\n\n\ndef train_nature_dqn("
+MUTANTS += [
+    {"id": "c13-dqn-guard-clause-loop-roll-flipped", "file": _DQN, "rule": "R4", "all": True, "edits": [(_WHILE, _WHILE_GUARD), ("        if epsilon_rolls[step] < epsilon[step]:", "        if epsilon_rolls[step] >= epsilon[step]:")]},
+    {"id": "c13-dqn-whole-step-result-greedy-next", "file": _DQN, "rule": "R4", "all": True, "edits": [(_STEP_DQN, _STEP_WHOLE), (_GREEDY_DQN, "            action = greedy_policy(q_net, next_obs) if step > global_step else greedy_policy(q_net, obs)\n")]},
+    {"id": "c13-nature-mask-warm-up-inverted", "file": _NDQN, "rule": "R4", "all": True, "edits": [(_ROLLS, _ROLLS + _MASK.replace("< learning_starts", ">= learning_starts")), (_IF_NDQN, "        if explore[step]:\n")]},
+    {"id": "c13-nature-mask-and-instead-of-or", "file": _NDQN, "rule": "R4", "all": True, "edits": [(_ROLLS, _ROLLS + _MASK.replace("warm_up | np", "warm_up & np")), (_IF_NDQN, "        if explore[step]:\n")]},
+    {"id": "c13-nature-schedule-restarts-on-continuation", "file": _NDQN, "rule": "R4", "all": True, "edits": [(_EPS, "    epsilon = linear_schedule(total_timesteps - global_step)\n"), (_IF_NDQN, "        if step < learning_starts or epsilon_rolls[step] < epsilon[step - global_step]:\n")]},
+    {"id": "c13-nature-schedule-entry-of-run-step", "file": _NDQN, "rule": "R4-greedy", "find": _IF_NDQN, "replace": "        if step < learning_starts or epsilon_rolls[step] < epsilon[step - global_step]:\n"},
+    {"id": "c13-nature-inline-schedule-end", "file": _NDQN, "rule": "R4", "all": True, "edits": [(_EPS, ""), (_IF_NDQN, "        if step < learning_starts or epsilon_rolls[step] < linear_schedule(total_timesteps, end=0.05)[step]:\n")]},
+    {"id": "c13-nature-helper-mask-schedule-of-remaining-steps", "file": _NDQN, "rule": "R4", "all": True, "edits": [("\n\ndef train_nature_dqn(", _MASK_HELPER.replace("N_STEPS", "n_steps - first_step").replace("eps[first_step:]", "eps")), (_ROLLS, "    explore = _exploring_steps(subkey, total_timesteps, global_step, learning_starts)\n"), (_IF_NDQN, "        if explore[step - global_step]:\n")]},
+]
+BENIGN += [
+    {"id": "c13-b-dqn-guard-clause-loop", "file": _DQN, "find": _WHILE, "replace": _WHILE_GUARD},
+    {"id": "c13-b-nature-guard-clause-loop-else-break", "file": _NDQN, "find": _WHILE, "replace": "    while True:\n        if step < total_timesteps:\n            pass\n        else:\n            break\n"},
+    {"id": "c13-b-dqn-whole-step-result", "file": _DQN, "find": _STEP_DQN, "replace": _STEP_WHOLE},
+    {"id": "c13-b-dqn-whole-step-result-unpacked-later", "file": _DQN, "all": True, "edits": [(_STEP_DQN, "        result = env.step(int(action))\n        reward = result[1]\n        next_obs, _, terminated, truncated, info = result\n"), ("            obs = next_obs\n", "            carried = next_obs\n            obs = carried\n")]},
+    {"id": "c13-b-nature-mask-once-for-all-steps", "file": _NDQN, "all": True, "edits": [(_ROLLS, _ROLLS + _MASK), (_IF_NDQN, "        if explore[step]:\n")]},
+    {"id": "c13-b-nature-mask-logical-or-negated", "file": _NDQN, "all": True, "edits": [(_ROLLS, _ROLLS + "    exploit = ~np.logical_or(np.arange(total_timesteps) < learning_starts, np.asarray(epsilon_rolls < epsilon))\n"), (_IF_NDQN + "            action = env.action_space.sample()\n        else:\n" + _GREEDY_DQN, "        if exploit[step]:\n" + _GREEDY_DQN + "        else:\n            action = env.action_space.sample()\n")]},
+    {"id": "c13-b-nature-schedule-and-rolls-inline", "file": _NDQN, "all": True, "edits": [(_EPS, ""), (_ROLLS, ""), (_IF_NDQN, "        if step < learning_starts or jax.random.uniform(subkey, (total_timesteps,))[step] < linear_schedule(total_timesteps)[step]:\n")]},
+    {"id": "c13-b-nature-rolls-for-the-remaining-steps", "file": _NDQN, "all": True, "edits": [(_ROLLS, "    epsilon_rolls = jax.random.uniform(subkey, (total_timesteps - global_step,))\n"), (_IF_NDQN, "        if step < learning_starts or epsilon_rolls[step - global_step] < epsilon[step]:\n")]},
+    {"id": "c13-b-nature-entries-in-locals", "file": _NDQN, "find": _IF_NDQN, "replace": "        roll, eps_now = epsilon_rolls[step], float(epsilon[step])\n        if step < learning_starts or roll < eps_now:\n"},
+    {"id": "c13-b-nature-helper-mask-documented-schedule", "file": _NDQN, "all": True, "edits": [("\n\ndef train_nature_dqn(", _MASK_HELPER.replace("N_STEPS", "n_steps")), (_ROLLS, "    explore = _exploring_steps(subkey, total_timesteps, global_step, learning_starts)\n"), (_IF_NDQN, "        if explore[step - global_step]:\n")]},
+]
+_EPS_REST = "    epsilon = linear_schedule(total_timesteps)[global_step:]\n"
+MUTANTS += [
+    {"id": "c13-nature-rest-of-schedule-read-at-step", "file": _NDQN, "rule": "R4-greedy", "find": _EPS, "replace": _EPS_REST},
+]
+BENIGN += [
+    {"id": "c13-b-nature-rest-of-schedule-read-at-run-step", "file": _NDQN, "all": True, "edits": [(_EPS, _EPS_REST), (_IF_NDQN, "        if step < learning_starts or epsilon_rolls[step] < epsilon[step - global_step]:\n")]},
+    {"id": "c13-b-nature-device-mask-bool", "file": _NDQN, "all": True, "edits": [("import jax\n", "import jax\nimport jax.numpy as jnp\n"), (_ROLLS, _ROLLS + "    explore = jnp.logical_or(jnp.arange(total_timesteps) < learning_starts, epsilon_rolls < epsilon)\n"), (_IF_NDQN, "        if bool(explore[step]):\n")]},
 ]
